@@ -535,6 +535,11 @@ func callSSA(i *interpreter, caller *frame, callpos token.Pos, fn *ssa.Function,
 			csPop(depth_)
 			return r_
 		}
+		if sf := summaryFns[name]; sf != nil {
+			eng.stubs["summary:"+name+"="+sf.Name()] = true
+			csPop(depth_)
+			return callSSA(i, caller, callpos, sf, args, nil)
+		}
 		if havocFns[name] {
 			eng.stubs["havoc:"+name] = true
 			csPop(depth_)
